@@ -60,9 +60,9 @@ func (e *Env) REntry() {
 	label := func(fn *types.Func) string {
 		if sig, ok := fn.Type().(*types.Signature); ok && sig.Recv() != nil {
 			_, n := namedOf(sig.Recv().Type())
-			return n + "." + fn.Name()
+			return n + "." + load.CanonName(fn)
 		}
-		return fn.Name()
+		return load.CanonName(fn)
 	}
 	reach := func(fd *ast.FuncDecl) map[string]bool {
 		seen := map[*types.Func]bool{}
